@@ -467,6 +467,34 @@ func store(t *core.T, fam int) (b blob, ok bool) {
 				srid = []int{4326, 1, 0x20000000, 1<<31 - 1}[s.Intn(4, "sridv")]
 			}
 			b.data, err = ewkb.Marshal(g, srid, order)
+			if s.Chance(1, 6, "long") {
+				// a run of 16-40 points followed by shorter pieces, written by the harness's own (E)WKB writer
+				// (what is stored does not depend on orb's encoder; what a decoder returns for it is re-encoded by orb's)
+				n := []int{16, 17, 24, 40}[s.Intn(4, "run")]
+				pts := func(n int) []orb.Point {
+					ps := make([]orb.Point, n)
+					for i := range ps {
+						ps[i] = orb.Point{float64(i), float64(s.Range(0, 16, "ly")) - 8}
+					}
+					return ps
+				}
+				switch s.Intn(4, "longkind") {
+				case 0:
+					g = orb.Collection{orb.LineString(pts(n)), orb.Point{1, 2}, orb.LineString(pts(3))}
+				case 1:
+					shell := pts(n)
+					g = orb.Polygon{orb.Ring(append(shell, shell[0])), orb.Ring{{1, 1}, {2, 1}, {2, 2}, {1, 1}}}
+				case 2:
+					g = orb.MultiLineString{orb.LineString(pts(n)), orb.LineString(pts(2)), orb.LineString(pts(n + 1))}
+				default:
+					g = orb.MultiPolygon{{orb.Ring(pts(4))}, {orb.Ring(pts(n)), orb.Ring(pts(5))}}
+				}
+				le := order == binary.LittleEndian
+				b.data, err = m.Encode(g, srid, func() bool { return le }), nil
+			} else if norm, ok := m.Normalise(g); ok && s.Chance(1, 5, "foreign") {
+				// the same value as another producer may have written it: every member in its own byte order
+				b.data = m.Encode(norm, srid, func() bool { return s.Bool("le") })
+			}
 			b.desc = gen.Describe(g)
 			switch s.Pick([]int{5, 1, 1, 1}, "framing") {
 			case 0:
